@@ -899,6 +899,89 @@ def unroll_literal_loops(func_node: ast.AST, max_items: int = 8) -> ast.AST:
     return ast.fix_missing_locations(res)
 
 
+def function_value_expr(f: ast.FunctionDef) -> typing.Optional[ast.expr]:
+    """the value a small pure function returns, as one expression over its parameters: docstring and asserts dropped, single-assigned
+    locals substituted, `if c: return a` ... `return b` turned into `a if c else b`; None when the body is anything else (loops, try, ...)"""
+    env: typing.Dict[str, ast.expr] = {}
+
+    class B(ast.NodeTransformer):
+        def visit_Name(self, node):
+            if isinstance(node.ctx, ast.Load) and node.id in env:
+                return copy.deepcopy(env[node.id])
+            return node
+
+    def seq(stmts):
+        for i, st in enumerate(stmts):
+            if isinstance(st, ast.Expr) and isinstance(st.value, ast.Constant) or isinstance(st, ast.Assert):
+                continue
+            if isinstance(st, ast.Assign) and len(st.targets) == 1 and isinstance(st.targets[0], ast.Name):
+                env[st.targets[0].id] = B().visit(copy.deepcopy(st.value))
+                continue
+            if isinstance(st, ast.AnnAssign) and isinstance(st.target, ast.Name) and st.value is not None:
+                env[st.target.id] = B().visit(copy.deepcopy(st.value))
+                continue
+            if isinstance(st, ast.Return) and st.value is not None:
+                return B().visit(copy.deepcopy(st.value))
+            if isinstance(st, ast.If):
+                saved = dict(env)
+                a = seq(st.body)
+                env.clear()
+                env.update(saved)
+                b = seq(st.orelse) if st.orelse else None
+                env.clear()
+                env.update(saved)
+                if a is None:
+                    return None
+                if b is None:
+                    b = seq(stmts[i + 1:])
+                if b is None:
+                    return None
+                return ast.IfExp(test=B().visit(copy.deepcopy(st.test)), body=a, orelse=b)
+            return None
+        return None
+
+    r = seq(f.body)
+    return ast.fix_missing_locations(r) if r is not None else None
+
+
+def inline_value_calls(func_node: ast.FunctionDef, methods: typing.Dict[str, ast.FunctionDef], depth: int = 2) -> ast.FunctionDef:
+    """copy of the function in which calls `self._h(a, b)` of private methods that only compute a value (function_value_expr) are
+    replaced by that value with the parameters bound - a computation split into value-returning helpers read as one expression"""
+    fn = copy.deepcopy(func_node)
+
+    class R(ast.NodeTransformer):
+        def __init__(self, d):
+            self.d = d
+
+        def visit_Call(self, node):
+            self.generic_visit(node)
+            if self.d <= 0 or not (isinstance(node.func, ast.Attribute) and isinstance(node.func.value, ast.Name) and node.func.value.id in ("self", "cls")
+                                   and node.func.attr in methods and node.func.attr.startswith("_") and not node.keywords
+                                   and not any(isinstance(a, ast.Starred) for a in node.args)):
+                return node
+            h = methods[node.func.attr]
+            if h is func_node:
+                return node
+            ps = [a.arg for a in h.args.args]
+            if ps and not any(isinstance(d_, ast.Name) and d_.id == "staticmethod" for d_ in h.decorator_list):
+                ps = ps[1:]
+            if len(ps) != len(node.args) or h.args.vararg or h.args.kwarg:
+                return node
+            v = function_value_expr(h)
+            if v is None:
+                return node
+            env = dict(zip(ps, node.args))
+
+            class S(ast.NodeTransformer):
+                def visit_Name(self, n_):
+                    return copy.deepcopy(env[n_.id]) if isinstance(n_.ctx, ast.Load) and n_.id in env else n_
+            out = S().visit(copy.deepcopy(v))
+            return R(self.d - 1).visit(ast.copy_location(out, node))
+
+    fn = R(depth).visit(fn)
+    return ast.fix_missing_locations(fn)
+
+
 def _without_early_returns(stmts: typing.List[ast.stmt]) -> typing.Optional[typing.List[ast.stmt]]:
     """a procedure body with bare `return`s turned into structure: `if c: A; return` + rest  ->  `if c: A else: rest`; a trailing
     `return` is dropped; None when a return sits where this cannot be done (inside a loop / try)"""
